@@ -721,6 +721,9 @@ def _selftest() -> None:
     assert (f["cyc_int"], f["cyc_flt"], f["longest_int"], f["nonself"], f["fanout"]) == (1, 0, 3, 4, True)
     f = graph_features([("a0", "a1", 32), ("a1", "a0", 32), ("a3", "a2", 32)])
     assert (f["cyc_int"], f["longest_int"], f["fanout"]) == (1, 2, False)
+    assert abi_destinations(("i:reg", "f:f64", "i:i32", "f:reg")) == ["a0", "fa0", "a1", "fa1"]
+    assert [prescribed_width(k, None, None) for k in KINDS] == [32, 32, 32, 32, 64, 64]
+    assert [prescribed_width(k, 32, 64) for k in KINDS] == [32, 64, 64, 32, 64, 32]
 
 
 def make_tasks(ctx):
@@ -807,7 +810,9 @@ def run(ctx):
                                "register is used more than once",
                   "free_candidates": "pool registers unused by the graph + outside registers t0(,t1)/ft0(,ft1); float "
                                      "candidates only when the graph has float operands"}
-    ctx.rule = ("every riscv.parallel_mov whose destinations are an ordered non-empty subset of the destination registers "
+    ctx.rule = ("(helper family: every call of move_to_regs / move_to_a_regs / move_to_unallocated_regs within the bounds, "
+                "lowered and executed the same way, judged at the width the value type prescribes) + "
+                "every riscv.parallel_mov whose destinations are an ordered non-empty subset of the destination registers "
                 "and whose sources are any registers of the pool, times every free_registers list, width assignment and "
                 "SSA mode within the bounds; one state = one (graph, free list, widths, SSA mode); transitions = moves "
                 "placed; executions = runs of RISCVLowerParallelMovPass whose output was executed on the symbolic register "
